@@ -13,11 +13,13 @@ package keeper
 
 //@ func Keeper.GetParams(ctx) (params)
 //@   props C03 C04 C05 C14 C16 C17
+//@   nopanic
 //@   pure
 //@   ensures entParamsSet(ent_store) ==> params == entParams(ent_store)
 
 //@ func Keeper.GetParamDenom(ctx) (r)
 //@   props C03 C04 C05 C14 C16 C17
+//@   nopanic
 //@   pure
 //@   ensures entParamsSet(ent_store) ==> r == entDenom(ent_store)
 
@@ -38,6 +40,7 @@ package keeper
 
 //@ func Keeper.SetTotalLockedUnd(ctx, totalLocked) (err)
 //@   props C04 C05 C14
+//@   nopanic
 //@   modifies ent_store
 //@   ensures err == nil && ent_store == old(ent_store)[kTotalLocked := coinBytes(totalLocked)]
 
@@ -50,11 +53,13 @@ package keeper
 
 //@ func Keeper.SetTotalSpentEFUND(ctx, totalUsed) (err)
 //@   props C04 C05 C14
+//@   nopanic
 //@   modifies ent_store
 //@   ensures err == nil && ent_store == old(ent_store)[kTotalSpent := coinBytes(totalUsed)]
 
 //@ func Keeper.AccountHasLockedUnd(ctx, address) (ok)
 //@   props C04 C05 C14
+//@   nopanic
 //@   requires 1 <= len(address) && len(address) <= 255
 //@   pure
 //@   ensures ok == lockedHas(ent_store, bytesval(address))
@@ -93,6 +98,7 @@ package keeper
 
 //@ func Keeper.AccountHasSpentEFUND(ctx, address) (ok)
 //@   props C04 C05 C14
+//@   nopanic
 //@   requires 1 <= len(address) && len(address) <= 255
 //@   pure
 //@   ensures ok == spentHas(ent_store, bytesval(address))
@@ -108,6 +114,7 @@ package keeper
 
 //@ func Keeper.SetSpentEFUNDForAccount(ctx, spent) (err)
 //@   props C04 C05 C14
+//@   nopanic
 //@   modifies ent_store
 //@   ensures (err == nil) == validBech32(spent.Owner)
 //@   ensures err == nil ==> ent_store == spentPut(old(ent_store), bytesval(addrOf(spent.Owner)), spent)
@@ -210,7 +217,8 @@ package keeper
 
 // logging has no effect on module state
 //@ func Keeper.Logger(ctx) (l)
-//@   trusted the logger handle is not modelled; the method only derives a logger from the context
+//@   props C01
+//@   nopanic
 //@   pure
 
 // ================================================================ purchase orders (L1)
@@ -538,18 +546,20 @@ package keeper
 
 // Completion of every order accepted at entry: marked Completed, its amount minted and locked for its purchaser
 // (contract of MintCoinsAndLock), removed from the queue.  Supply of other denominations, and everything when no
-// order is queued, is untouched.  State assumptions: total locked below 2^200, the module may mint, purchasers are
-// not blocked (module) accounts - those have no keys and cannot have signed the order.
+// order is queued, is untouched.  State assumption: total locked below 2^200.  It cannot panic when the module may mint
+// and no purchaser is a blocked (module) account - such accounts have no keys and cannot have signed an order; for
+// other states the function may panic (the block is then not committed) but whenever it returns, every order accepted at
+// entry is completed: an error of the mint may not be swallowed.
 //@ func Keeper.ProcessAcceptedPurchaseOrders(ctx)
 //@   props C02 C03 C04 C14
 //@   requires ENT_ALL(ent_store) && ENT_BOOKS_WF(ent_store) && BANK_OK(bank_bal) && ENT_LEDGER(ent_store, bank_bal, bytesval(modAddr("enterprise")))
-//@   requires bankCanMint("enterprise") && totalLockedAmt(ent_store) < P200
-//@   requires forall x uint64 :: {ent_store[kAccepted(x)]} acceptedHas(ent_store, x) ==> !bankBlocked(bytesval(addrOf(poGet(ent_store, x).Purchaser))) && bytesval(addrOf(poGet(ent_store, x).Purchaser)) != bytesval(modAddr("enterprise"))
+//@   requires totalLockedAmt(ent_store) < P200
+//@   requires forall x uint64 :: {ent_store[kAccepted(x)]} acceptedHas(ent_store, x) ==> bytesval(addrOf(poGet(ent_store, x).Purchaser)) != bytesval(modAddr("enterprise"))
 //@   let s0 := old(ent_store)
 //@   let dn := entDenom(old(ent_store))
 //@   let esc := bytesval(modAddr("enterprise"))
 //@   modifies ent_store, bank_bal, bank_supply
-//@   nopanic
+//@   nopanic_if bankCanMint("enterprise") && forall x uint64 :: {ent_store[kAccepted(x)]} acceptedHas(ent_store, x) ==> !bankBlocked(bytesval(addrOf(poGet(ent_store, x).Purchaser)))
 //@   ensures @completed forall x uint64 :: {ent_store[kPO(x)]} {ent_store[kAccepted(x)]} acceptedHas(s0, x) ==> completedFrom(s0, ent_store, x)
 //@   ensures @others_untouched forall x int :: {ent_store[kPO(x)]} {ent_store[kAccepted(x)]} !acceptedHas(s0, x) ==> ent_store[kPO(x)] == s0[kPO(x)] && ent_store[kAccepted(x)] == s0[kAccepted(x)]
 //@   ensures @frame forall k `enterprise.Key` :: {ent_store[k]} !isPOKey(k) && !isAcceptedKey(k) && !isLockedKey(k) && k != kTotalLocked ==> ent_store[k] == s0[k]
